@@ -5,6 +5,8 @@ CONSTANTS
   NilCloseGuarded = TRUE
   GuardTypedNil = TRUE
   CloseOnNilPayload = TRUE
+  PooledBuffer = FALSE
+  MaxSeq = 4
   MaxContent = 4
   MaxChunks = 5
   MaxChunk = 4
